@@ -184,6 +184,17 @@ def run(F, R, tier):
                     R.ob("C05-b", "lockfile lookup keyed by the specifier whose slot is being loaded", same and key.get("res") == "local",
                          "get_remote_checksum is keyed by `%s`, not by the specifier inserted into module_slots" % expr_text(key), where(x))
 
+    # the manifest checksum of an https URL into the registry is derived for every kind of
+    # load (module or asset): the package lookup that makes it possible is guarded only by
+    # "the caller did not already know the version"
+    lp_ = F.body("graph::Builder::load_pending_module")
+    nv = [n for n in lp_["_nodes"] if n.get("k") == "MethodCall" and n["name"] == "package_url_to_nv" and not any(a.get("k") == "Closure" and a.get("ck", "").startswith("coroutine") for a in k_ancestors(n))]
+    if R.ob("C05-b", "package lookup for plain https URLs found", len(nv) == 1, "load_pending_module no longer maps the requested URL to a registry package", lp_["file"]):
+        conds = [x for x in guards_at(F, nv[0]) if x.kind == "cond" and not x.derived]
+        ok = len(conds) == 1 and conds[0].pol and conds[0].node.get("fn") == "std::option::Option::is_none" and tyc(F, conds[0].node["recv"], "graph::JsrPackageVersionInfoExt")
+        R.ob("C05-b", "every load of a registry https URL (asset or module) gets its manifest checksum derived", ok,
+             "the package lookup is additionally guarded by %s: for those loads try_load never derives the manifest checksum and the loader is called without it" % [x.text()[:40] for x in conds], where(nv[0]))
+
     # ---------------- C05-c ------------------------------------------------
     tl = F.body("try_load")
     lits = [n for n in tl["_nodes"] if n["k"] == "Struct" and n.get("adt") == "source::LoadOptions"]
